@@ -13,7 +13,7 @@ REPO_SRC = repo_src()
 class Contract(object):
     def __init__(self, module, qualname, params, returns=None, requires=(), ensures=(), loops=None, pure=True, modifies=(),
                  theories=('word',), decreases=(), types=None, ghost=None, defaults=None, props=(), symbol_is_regexp=False,
-                 hints=None, bounded=None, note='', variant='', asserts=(), verify=True, pre_return_asserts=(), result_shares=None, type_invariants=()):
+                 hints=None, bounded=None, note='', variant='', asserts=(), verify=True, pre_return_asserts=(), result_shares=None, type_invariants=(), raises=None, raise_witness=None):
         self.module, self.qualname = module, qualname
         self.variant = variant
         self.key = qualname + ('[%s]' % variant if variant else '')
@@ -47,6 +47,13 @@ class Contract(object):
         # later calls of methods of the same object only ever enlarge.  Values obtained earlier are then re-read with an enlarged field.
         self.result_shares = dict(result_shares or {})
         self.asserts = list(asserts)
+        # exceptional postcondition: a condition over the entry state such that the function raises an exception exactly when it holds
+        # (every `raise` statement and every raising call is justified by it, every normal return refutes it); None: the function must not raise
+        # a list is a disjunction; `raise_witness` {callee contract name | 'raise#k' (k-th raise statement): index} names the disjunct that
+        # justifies an exceptional exit (a stronger obligation than the whole disjunction, stated to keep the queries small)
+        self.raises_parts = None if raises is None else ([raises] if isinstance(raises, str) else list(raises))
+        self.raises = None if raises is None else ' or '.join('(%s)' % r for r in self.raises_parts)
+        self.raise_witness = dict(raise_witness or {})
         # proved (then assumed) before the return expression is evaluated; a list applies to every return statement, a dict
         # {'last': [...], n: [...]} to the last / the n-th return statement in source order
         self.pre_return_asserts = dict(pre_return_asserts) if isinstance(pre_return_asserts, dict) else list(pre_return_asserts)
@@ -94,9 +101,15 @@ class Registry(object):
         vs = self.variants(name)
         return vs or None
 
+    BASES = {'DFABuilder': 'AutomatonBuilder', 'NFABuilder': 'AutomatonBuilder', 'PDABuilder': 'AutomatonBuilder', 'TMBuilder': 'AutomatonBuilder'}
+
     def find_method(self, caller, name):
         cls = caller.qualname.split('.')[0]
-        return self.variants('%s.%s' % (cls, name)) or None
+        while cls is not None:            # methods inherited from the base class are bound to the base class's contract
+            vs = self.variants('%s.%s' % (cls, name))
+            if vs: return vs
+            cls = self.BASES.get(cls)
+        return None
 
 
 REG = Registry()
